@@ -206,3 +206,23 @@ func TestC16Demo_ReadParquetNamedInLiteralOrComment(t *testing.T) {
 		}
 	}
 }
+
+// WITH followed by a line break: the header-database converter looked for
+// "with " (with a space) before extracting CTE names, so the CTE was taken for
+// a measurement and rewritten to a storage path. (Pointed out by a seeding
+// agent reading the unmodified tree; the permission extractor always excludes
+// CTE names, so the rewritten reference was also never permission-checked.)
+func TestC16Demo_WithFollowedByLineBreak(t *testing.T) {
+	h, db, arc := c16Env(t)
+	for _, q := range []string{
+		"WITH\nx AS (SELECT host FROM cpu WHERE v > 1) SELECT host AS r FROM x ORDER BY r",
+		"WITH\tx AS (SELECT host FROM cpu) SELECT x.host AS r FROM x JOIN mem m ON x.host = m.host ORDER BY r",
+	} {
+		want, werr := c16Rows(db, q)
+		conv := h.convertSQLToStoragePathsWithHeaderDB(context.Background(), q, "prod")
+		got, gerr := c16Rows(arc, conv)
+		if (werr != nil) != (gerr != nil) || !reflect.DeepEqual(got, want) {
+			t.Errorf("answers differ\n  sql:    %q\n  duckdb: %v %v\n  arc:    %v %v\n  arc sql: %s", q, want, werr, got, gerr, conv)
+		}
+	}
+}
